@@ -14,7 +14,7 @@ class Gen:
     def weights(self):
         w = dict(apply=10, ack=12, ready=12, exit=4, tick=9, advance=8, scan=5, map=2, imap=2, imapu=1,
                  feed=4, stale_ack=0.7, stale_ready=0.7, death=0.7, junk=0.5, discard=0.7, terminate_job=1.5,
-                 grow=1, shrink=1, close=0.3, tick_close=0.6, join_shutdown=0.8, next=2.5, dup_ready=1.0, scan_block=2.5, advance_deadline=6)
+                 grow=1, shrink=1, close=0.3, tick_close=0.6, join_shutdown=0.8, applyq=2.5, apply_unsendable=0.8, next=2.5, dup_ready=1.0, scan_block=2.5, advance_deadline=6)
         w.update(self.focus)
         return w
 
@@ -112,6 +112,11 @@ class Gen:
         if k == 'apply':
             return ['apply', rng.choice([None, None, None, 0, 2, 4]), rng.choice([None, None, None, 0, 3, 6]),
                     rng.choice([None, None, None, 3]), rng.choice([None, None, None, True, False])]
+        if k == 'applyq':
+            return ['applyq', rng.choice([None, None, None, 0, 2, 4]), rng.choice([None, None, None, 0, 3, 6]),
+                    rng.choice([None, None, None, 3]), rng.choice([None, None, None, True, False])]
+        if k == 'apply_unsendable':
+            return ['apply_unsendable', rng.choice([None, None, True, False])]
         if k == 'map':
             return ['map', rng.choice([0, 1, 2, 3, 4, 5]), rng.choice([1, 1, 2, 3])]
         if k in ('imap', 'imapu'):
